@@ -186,6 +186,71 @@ def run_text(S_, lang, n, which, stats, findings):
             findings.append({'level': 'text:' + which, 'lang': lang, 'n': n, 'kind': 'illformed', 'msg': 'ill-formed Ok value', 'where': 'parse_pattern_nosubst', 'codepoints': string_text(m, cs)})
     stats['fenc'] |= set(ex.inlined); stats['lmod'] |= ex.modelled; stats['solver_s'] += ex.t_solver; stats['branches'] += ex.n_branches
 
+# ---- payload texts (language Lp: a u32 payload variant before a Symbol payload variant) against a reference recogniser --------------
+LP_OPS = ['pu', 'pv']
+def _ident_char(c):
+    return z3.And(z3.Not(strings.is_ws(c)), *[c != ord(x) for x in '()[]'])
+def _digit(c): return z3.And(z3.UGE(c, 48), z3.ULE(c, 57))
+def ref_payload_text(cs):
+    """printed forms of payload values (the property: no whitespace or bracket characters): one maximal identifier run"""
+    return z3.And(*[_ident_char(c) for c in cs])
+def sigil_prefix(cs):
+    """texts the tokenizer reads as a pattern variable, a slot or the := token rather than as an identifier"""
+    c = [cs[0] == ord('?'), cs[0] == ord('$')]
+    if len(cs) >= 2: c.append(z3.And(cs[0] == ord(':'), cs[1] == ord('=')))
+    return z3.Or(*c)
+def expected_print(text):
+    return str(int(text)) if re.fullmatch(r'\+?[0-9]+', text) and int(text) < 2**32 else text
+
+def run_payload_text(S_, n, stats, findings):
+    """RecExpr::parse on EVERY string of n scalar values in the payload language Lp, compared with a reference recogniser: a text that is
+    one identifier run (a printed payload) must be accepted, as the number it spells if str::parse::<u32> accepts it (the earlier
+    payload variant) and as the symbol with exactly this text otherwise."""
+    R = S_.resolver; R.tymap.clear(); R.tymap.update({'L': 'Lp'})
+    ex = S_.executor(); ex.stub_named = True
+    fn = R.M('RecExpr::parse'); E = S_.enums
+    def entry(ex_):
+        ex_._named_n = 0
+        s, cs = mk_string(ex_, n)
+        r = ex_.call(fn, [s])
+        if r.disc != 0: return ('err',)
+        node = dd(dd(r.payload.f[0]).f[0]); kids = dd(dd(r.payload.f[0]).f[1])
+        if node.disc == E['Lp::PNum']: return ('num', dd(node.payload.f[0]), len(kids.items))
+        if node.disc == E['Lp::PSym']: return ('sym', dd(dd(node.payload.f[0]).f[0]), len(kids.items))
+        return ('other', node.disc)
+    cs = [z3.BitVec('ch%d' % i, 32) for i in range(n)]
+    ref = ref_payload_text(cs); sig = sigil_prefix(cs)
+    # what str::parse::<u32> accepts among texts of <= 9 characters: an optional '+' and one or more digits
+    numeral = z3.Or(z3.And(*[_digit(c) for c in cs]), z3.And(cs[0] == ord('+'), *[_digit(c) for c in cs[1:]]) if n >= 2 else z3.BoolVal(False))
+    value = z3.BitVecVal(0, 32)
+    for c in cs: value = z3.If(_digit(c), value * 10 + (c - 48), value)
+    def sat_model(pc, *extra):
+        sx = z3.Solver(); sx.add(*pc); sx.add(*extra)
+        return sx.model() if sx.check() == z3.sat else None
+    for p in ex.explore(entry, max_paths=200000):
+        stats['paths'] += 1
+        if p['kind'] == 'panic':
+            findings.append({'level': 'text:payload', 'lang': 'Lp', 'n': n, 'kind': 'panic', 'msg': p['result']['msg'], 'where': short_fn(p['result']['where'] or ''), 'codepoints': string_text(ex_model(p['pc']), cs)}); continue
+        res = p['result']; bad = None
+        if res[0] == 'err':
+            opname = z3.Or(*[z3.And(*[c == ord(ch) for c, ch in zip(cs, op)]) for op in LP_OPS if len(op) == n]) if any(len(op) == n for op in LP_OPS) else z3.BoolVal(False)
+            m = sat_model(p['pc'], ref, z3.Not(sig), z3.Not(opname))
+            if m is not None: findings.append({'level': 'text:payload', 'lang': 'Lp', 'n': n, 'kind': 'valid_text_rejected', 'msg': 'the printed form of a payload value is rejected', 'where': 'RecExpr_parse', 'codepoints': string_text(m, cs)})
+            m = sat_model(p['pc'], ref, opname)
+            if m is not None: findings.append({'level': 'text:payload', 'lang': 'Lp', 'n': n, 'kind': 'valid_text_rejected', 'msg': 'a symbol payload spelled like an operator name prints as that operator and is not parsed back', 'where': 'operator_name', 'codepoints': string_text(m, cs)})
+            m = sat_model(p['pc'], ref, sig)
+            if m is not None: findings.append({'level': 'text:payload', 'lang': 'Lp', 'n': n, 'kind': 'valid_text_rejected', 'msg': 'a symbol payload whose text begins with ? $ or := prints as a pattern variable / slot / substitution token and is not parsed back', 'where': 'sigil_prefix', 'codepoints': string_text(m, cs)})
+            continue
+        if res[0] == 'num':
+            m = sat_model(p['pc'], ref, z3.Or(z3.Not(numeral), res[1] != value)) if res[2] == 0 else sat_model(p['pc'], ref)
+        elif res[0] == 'sym':
+            t = res[1]
+            same = strings.seq_eq(strings.lit(t), SStr(cs)) if isinstance(t, SStr) else z3.BoolVal(False)
+            m = sat_model(p['pc'], ref, z3.Or(numeral, z3.Not(same))) if res[2] == 0 else sat_model(p['pc'], ref)
+        else: m = sat_model(p['pc'], ref)
+        if m is not None: findings.append({'level': 'text:payload', 'lang': 'Lp', 'n': n, 'kind': 'payload_value', 'msg': 'a printed payload parses to a different value (%s)' % res[0], 'where': 'from_syntax', 'codepoints': string_text(m, cs)})
+    stats['fenc'] |= set(ex.inlined); stats['lmod'] |= ex.modelled; stats['solver_s'] += ex.t_solver; stats['branches'] += ex.n_branches
+
 MULTI_SEEDS = ['?a == (u ?b)', '?a == (app ?b ?c), ?b == (u ?a)', '?a==(lam $x ?b),?b==(var $x)']
 MULTI_SPLICED = ['?a == (app ?b (var $x))', '?a == (app (var $x) ?b)', '?a == (u ?b[?c := ?d])', '?a == (lam $x (var $x))']     # not multi-patterns: a child that is not a variable
 def run_text_seeded(S_, lang, seed, max_dev, stats, findings):
@@ -220,7 +285,7 @@ def classify(f):
 def native_replay(f, profile='release'):
     cps = f.get('codepoints')
     if cps is None: cps = [ord(c) for c in f['text']]
-    kind = 'multirt' if f['level'].endswith('multirt') else 'multi' if f['level'].endswith('multi') else ('recexpr' if f['level'].endswith('recexpr') else 'pattern')
+    kind = 'multirt' if f['level'].endswith('multirt') else 'multi' if f['level'].endswith('multi') else ('recexpr' if f['level'].endswith('recexpr') or f['level'].endswith('payload') else 'pattern')
     txt = 'case parse:r %s %s\ntext %s\n' % (f['lang'], kind, ' '.join(str(c) for c in cps))
     r = native.run_cases(txt, profile).get('parse:r')
     return r
@@ -231,6 +296,7 @@ def confirmed(f, r):
     if f['kind'] == 'roundtrip': return not (res.startswith('ok same=true') or res.startswith('err'))      # found natively; the replay repeats it
     if f['kind'] == 'panic': return res.startswith('panic')
     if f['kind'] == 'valid_text_rejected': return res.startswith('err') or res.startswith('panic')
+    if f['kind'] == 'payload_value': return not res == 'ok wf=true ' + expected_print(r['text'])
     if f['level'].endswith('multi'): return res.startswith('ok wf=false') or res.startswith('panic')      # printing an ill-formed multi-pattern indexes past its child list
     return res.startswith('ok wf=false')
 
@@ -252,6 +318,7 @@ def run(tier, seed=0):
     for n in range(0, NTXT + 1): plan.append(('text:pattern', 'Lb', n))
     for n in range(0, NTXT + 1): plan.append(('text:multi', 'Lb', n))
     for n in range(0, NTXT + 1): plan.append(('text:recexpr', 'Lb', n))
+    for n in range(1, NTXT + 1): plan.append(('text:payload', 'Lp', n))
     for sd in (MULTI_SEEDS[:1] if tier == 'quick' else MULTI_SEEDS): plan.append(('seeded-multi', 'Lb', sd))
     for sd in MULTI_SPLICED: plan.append(('spliced-multi', 'Lb', sd))
     for kind, lang, n in plan:
@@ -261,6 +328,7 @@ def run(tier, seed=0):
             elif kind == 'seeded': run_seeded(S_, lang, n, 1 if tier == 'quick' else 2, stats, findings)
             elif kind == 'seeded-multi': run_text_seeded(S_, lang, n, 1, stats, findings)
             elif kind == 'spliced-multi': run_text_seeded(S_, lang, n, 0 if tier == 'quick' else 1, stats, findings)
+            elif kind == 'text:payload': run_payload_text(S_, n, stats, findings)
             else: run_text(S_, lang, n, kind.split(':')[1], stats, findings)
             samples.append({'obligation': ('%s %s length %d' % (kind, lang, n)) if kind not in ('seeded', 'seeded-multi', 'spliced-multi') else ('the text "%s" that is not a multi-pattern (a child is not a variable)%s (%s)' % (n, '' if tier == 'quick' else ' and every string within 1 deviating scalar value', lang)) if kind == 'spliced-multi' else ('strings within 1 deviating scalar value of the valid multi-pattern text "%s" (%s)' % (n, lang)) if kind == 'seeded-multi' else 'token sequences within %d deviation(s) of the valid text "%s" (%s)' % (1 if tier == 'quick' else 2, n, lang), 'paths': stats['paths'] - before, 'findings': len(findings) - nf, 'wall_s': round(time.time() - t1, 2)})
         except (Unsupported, Budget) as e:
